@@ -355,7 +355,7 @@ fn main() {
          generator and run as regression cases only. Non-trivial = at least 2 releases by other threads; distinct = distinct serialised case.",
     );
     p.quick_cases = 3000;
-    p.thorough_cases = 40_000;
+    p.thorough_cases = 15_000;
     p.threads = 8;
     p.max_shrink_iters = 200;
     p.assumptions = vec![
